@@ -478,8 +478,18 @@ func builtinFuncs(e *Env) map[string]string {
 	if fd == nil {
 		return out
 	}
+	// only a literal that is assigned to the Functions field counts (the same map stored into Imports would
+	// make env / envInt / todo import aliases instead of functions)
 	ast.Inspect(fd.Body, func(n ast.Node) bool {
-		cl, ok := n.(*ast.CompositeLit)
+		as, ok := n.(*ast.AssignStmt)
+		if !ok || len(as.Lhs) != 1 || len(as.Rhs) != 1 {
+			return true
+		}
+		sel, ok := ast.Unparen(as.Lhs[0]).(*ast.SelectorExpr)
+		if !ok || sel.Sel.Name != "Functions" {
+			return true
+		}
+		cl, ok := ast.Unparen(as.Rhs[0]).(*ast.CompositeLit)
 		if !ok {
 			return true
 		}
